@@ -1,5 +1,6 @@
 import RucteModel.Statics
 import RucteProofs.BTree
+import RucteProps.C07
 
 /-!
 # C20 — Sass `static_name()` resolves to the published names
@@ -39,6 +40,19 @@ theorem static_name_missing (ua : Nat → Bool) (names : List (Bytes × Bytes)) 
     (h : ∀ p ∈ names, p.1 ≠ mangle ua f) : staticName ua names f = none := by
   unfold staticName
   exact btGet_none_of_not_mem h
+
+/-- **the compiled CSS is itself added as `<stem>.css`, named by the hash of the CSS bytes**
+(whatever rsass produced: `css` is universally quantified) -/
+theorem sass_css_added (ue ua : Nat → Bool) (s : Statics) (src css stem ext : Bytes)
+    (h : nameAndExt (baseName (withExtension src (str "css"))) = some (stem, ext)) :
+    (s.addSassResult ue ua src css).names =
+      btInsert (mangle ua (stem ++ [95] ++ ext)) (stem ++ [45] ++ checksumSlug css ++ [46] ++ ext) s.names :=
+  (C07.urlName_shape ue ua s (withExtension src (str "css")) css (.data css) stem ext h).2
+
+-- tests (evaluated): `q0.scss` is published as `q0-<slug of the css>.css`
+#guard withExtension (str "in/q0.scss") (str "css") == str "in/q0.css"
+#guard withExtension (str "style") (str "css") == str "style.css"
+#guard nameAndExt (baseName (withExtension (str "a/b.x.scss") (str "css"))) == some (str "b.x", str "css")
 
 /-- the pinned lookup misses files that were added: `17.css` is stored under `n17_css` but looked
 up as `17_css` (finding #8, machine-checked) -/
